@@ -1,5 +1,219 @@
 package main
 
-func runSelfTest(id string, d *propDef) map[string]interface{} { return map[string]interface{}{} }
+// Sensitivity self-test (thorough tier): every kept seeded change of the property
+// (/verif/seeded/<id>-*/patch.diff: independent sub-agent seeds and re-introduced
+// pinned-tree defects) is applied to a scratch copy of the affected files of /repo's
+// CURRENT tree and supplied to the analysis through packages.Config.Overlay; the rules of
+// the property are evaluated on the mutant in a child process. A mutant that is not
+// flagged is a weakness of the checker: it is recorded in the evidence and on stderr and
+// does not change the exit status (it says nothing about /repo).
 
-func runMutantChild(id string, d *propDef, mutant string) int { return 2 }
+import (
+	"encoding/json"
+	"fmt"
+	"os"
+	"os/exec"
+	"path/filepath"
+	"sort"
+	"strings"
+	"sync"
+)
+
+type seedMeta struct {
+	Property string `json:"property"`
+	Reverse  bool   `json:"reverse"`
+	Summary  string `json:"summary"`
+}
+
+func seedsFor(id string) []string {
+	dir := filepath.Join(verifDir(), "seeded")
+	ents, err := os.ReadDir(dir)
+	if err != nil {
+		return nil
+	}
+	var out []string
+	for _, e := range ents {
+		if !e.IsDir() {
+			continue
+		}
+		mb, err := os.ReadFile(filepath.Join(dir, e.Name(), "meta.json"))
+		if err != nil {
+			continue
+		}
+		var m seedMeta
+		if json.Unmarshal(mb, &m) != nil || m.Property != id {
+			continue
+		}
+		if _, err := os.Stat(filepath.Join(dir, e.Name(), "patch.diff")); err == nil {
+			out = append(out, filepath.Join(dir, e.Name()))
+		}
+	}
+	sort.Strings(out)
+	return out
+}
+
+// overlayFromPatch applies the seed's patch to copies of the files it names and returns
+// the overlay (absolute path in the repository -> patched content).
+func overlayFromPatch(seedDir string) (map[string][]byte, error) {
+	pb, err := os.ReadFile(filepath.Join(seedDir, "patch.diff"))
+	if err != nil {
+		return nil, err
+	}
+	var m seedMeta
+	if mb, err := os.ReadFile(filepath.Join(seedDir, "meta.json")); err == nil {
+		_ = json.Unmarshal(mb, &m)
+	}
+	var files []string
+	for _, l := range strings.Split(string(pb), "\n") {
+		if strings.HasPrefix(l, "+++ b/") {
+			files = append(files, strings.TrimPrefix(l, "+++ b/"))
+		}
+	}
+	if len(files) == 0 {
+		return nil, fmt.Errorf("no files in patch")
+	}
+	tmp, err := os.MkdirTemp("", "vcheck-mutant-")
+	if err != nil {
+		return nil, err
+	}
+	defer os.RemoveAll(tmp)
+	for _, f := range files {
+		src, err := os.ReadFile(filepath.Join(repoDir(), f))
+		if err != nil {
+			if os.IsNotExist(err) {
+				continue // file created by the patch
+			}
+			return nil, err
+		}
+		if err := os.MkdirAll(filepath.Dir(filepath.Join(tmp, f)), 0o755); err != nil {
+			return nil, err
+		}
+		if err := os.WriteFile(filepath.Join(tmp, f), src, 0o644); err != nil {
+			return nil, err
+		}
+	}
+	args := []string{"-p1", "-s", "-f", "-d", tmp, "-i", filepath.Join(seedDir, "patch.diff")}
+	if m.Reverse {
+		args = append([]string{"-R"}, args...)
+	}
+	if out, err := exec.Command("patch", args...).CombinedOutput(); err != nil {
+		return nil, fmt.Errorf("patch does not apply to the current tree: %s", strings.TrimSpace(string(out)))
+	}
+	ov := map[string][]byte{}
+	for _, f := range files {
+		b, err := os.ReadFile(filepath.Join(tmp, f))
+		if err != nil {
+			return nil, err
+		}
+		ov[filepath.Join(repoDir(), f)] = b
+	}
+	return ov, nil
+}
+
+type mutantResult struct {
+	Seed    string   `json:"seed"`
+	Applied bool     `json:"applied"`
+	Flagged bool     `json:"flagged"`
+	Rules   []string `json:"rules,omitempty"`
+	Note    string   `json:"note,omitempty"`
+}
+
+// runMutantChild evaluates the property on one mutant and prints a JSON result.
+func runMutantChild(id string, d *propDef, seedDir string) int {
+	res := mutantResult{Seed: filepath.Base(seedDir)}
+	ov, err := overlayFromPatch(seedDir)
+	if err != nil {
+		res.Note = err.Error()
+		b, _ := json.Marshal(res)
+		fmt.Println(string(b))
+		return 0
+	}
+	res.Applied = true
+	cfg := primaryCfg
+	cfg.Overlay = ov
+	func() {
+		defer func() {
+			if r := recover(); r != nil {
+				res.Flagged = true
+				res.Rules = append(res.Rules, "checker-panic")
+				res.Note = fmt.Sprint(r)
+			}
+		}()
+		p, err := Load(cfg)
+		if err != nil {
+			res.Applied = false
+			res.Note = "mutant does not type-check: " + err.Error()
+			return
+		}
+		c := &Ctx{P: p, Prop: id, Tier: "quick"}
+		d.Run(c)
+		c.finish()
+		seen := map[string]bool{}
+		for _, o := range c.Obls {
+			if o.Failed && !seen[o.Rule] {
+				seen[o.Rule] = true
+				res.Rules = append(res.Rules, o.Rule)
+			}
+		}
+		res.Flagged = len(res.Rules) > 0
+	}()
+	b, _ := json.Marshal(res)
+	fmt.Println(string(b))
+	return 0
+}
+
+func runSelfTest(id string, d *propDef) map[string]interface{} {
+	seeds := seedsFor(id)
+	if len(seeds) == 0 {
+		return map[string]interface{}{"selftest": "no seeded changes recorded for this property"}
+	}
+	exe, err := os.Executable()
+	if err != nil {
+		return map[string]interface{}{"selftest": "cannot locate own executable: " + err.Error()}
+	}
+	results := make([]mutantResult, len(seeds))
+	sem := make(chan struct{}, 8)
+	var wg sync.WaitGroup
+	for i, s := range seeds {
+		wg.Add(1)
+		go func(i int, s string) {
+			defer wg.Done()
+			sem <- struct{}{}
+			defer func() { <-sem }()
+			out, err := exec.Command(exe, "-prop", id, "-mutant", s).Output()
+			r := mutantResult{Seed: filepath.Base(s)}
+			if err != nil {
+				r.Note = "child failed: " + err.Error()
+			} else {
+				lines := strings.Split(strings.TrimSpace(string(out)), "\n")
+				if json.Unmarshal([]byte(lines[len(lines)-1]), &r) != nil {
+					r.Note = "child output not understood"
+				}
+			}
+			results[i] = r
+		}(i, s)
+	}
+	wg.Wait()
+	applied, flagged, na := 0, 0, 0
+	var missed []string
+	for _, r := range results {
+		switch {
+		case !r.Applied:
+			na++
+		case r.Flagged:
+			applied++
+			flagged++
+		default:
+			applied++
+			missed = append(missed, r.Seed)
+			fmt.Fprintf(os.Stderr, "selftest: %s: seeded change %s is NOT flagged by the rules of %s (checker weakness, not a violation)\n", id, r.Seed, id)
+		}
+	}
+	fmt.Printf("selftest property=%s mutants_applied=%d flagged=%d not_applicable=%d\n", id, applied, flagged, na)
+	return map[string]interface{}{
+		"selftest": map[string]interface{}{
+			"what":            "seeded property-breaking changes (independent sub-agent seeds and re-introduced pinned-tree defects) applied to the current tree through an overlay and analysed with this property's rules",
+			"mutants_applied": applied, "mutants_flagged": flagged, "operators_not_applicable": na, "missed": missed, "results": results,
+		},
+	}
+}
